@@ -12,6 +12,7 @@ import (
 	"os/exec"
 	"runtime"
 	"sort"
+	"strconv"
 	"strings"
 	"sync"
 	"time"
@@ -133,6 +134,11 @@ func Main(o Options) {
 	}
 	if o.Extra != nil {
 		o.Extra(r, *tier)
+	}
+	if f, err := strconv.ParseFloat(os.Getenv("VERIF_BUDGET_FACTOR"), 64); err == nil && f > 0 {
+		// seed testing on a loaded machine: same exploration, more wall clock
+		// (registered commands never set this)
+		budget = time.Duration(float64(budget) * f)
 	}
 	dl := time.Now().Add(budget)
 	stats, infra := runParent(insts, *tier, *only, *bound, dl)
